@@ -220,4 +220,111 @@ theorem setHeadPatternR_obj (s : Reg) (n : Name) (pat : Option Name) (i : NodeIn
 theorem setVolCurveR_obj (s : Reg) (n : Name) (curve : Option Name) (i : NodeInfo) : (setVolCurveR s n curve i).usage .patternObj = s.usage .patternObj := by
   unfold setVolCurveR; reg_obj
 
+/-! ### usage records are sets (the `OrderedSet`s of the code): no user is recorded twice -/
+
+def UsageNodup (s : Reg) : Prop := ∀ r k, (ulook (s.usage r) k).Nodup
+
+theorem nodup_ulook_addUsage (s : Reg) (r r' : RegId) (k k' : Name) (u : User) (h : (ulook (s.usage r') k').Nodup) :
+    (ulook ((addUsage s r k u).usage r') k').Nodup := by
+  unfold addUsage
+  rw [setUsage_usage]
+  by_cases hr : r' = r
+  · subst hr
+    simp only [if_true, ulook_set, users_eq]
+    by_cases hk : k = k'
+    · subst hk; simp only [if_true]; exact OSet.nodup_add _ _ h
+    · simp only [hk, if_false]; exact h
+  · simp only [hr, if_false]; exact h
+
+theorem nodup_ulook_addUsageO (s : Reg) (r r' : RegId) (k : Option Name) (k' : Name) (u : User)
+    (h : (ulook (s.usage r') k').Nodup) : (ulook ((addUsage? s r k u).usage r') k').Nodup := by
+  cases k with
+  | none => exact h
+  | some k => exact nodup_ulook_addUsage s r r' k k' u h
+
+theorem nodup_ulook_removeUsageT (s : Reg) (r r' : RegId) (k k' : Name) (u : User) (h : (ulook (s.usage r') k').Nodup) :
+    (ulook ((removeUsageT s r k u).usage r') k').Nodup := by
+  rw [ulook_removeUsageT]
+  split
+  · rename_i hc; obtain ⟨hr, hk⟩ := hc; subst hr; subst hk; exact OSet.nodup_discard _ _ h
+  · exact h
+
+theorem nodup_ulook_removeUsageO (s : Reg) (r r' : RegId) (k : Option Name) (k' : Name) (u : User)
+    (h : (ulook (s.usage r') k').Nodup) : (ulook ((removeUsageO s r k u).usage r') k').Nodup := by
+  cases k with
+  | none => exact h
+  | some k => exact nodup_ulook_removeUsageT s r r' k k' u h
+
+theorem nodup_ulook_popUsageKey (s : Reg) (r r' : RegId) (k k' : Name) (h : (ulook (s.usage r') k').Nodup) :
+    (ulook ((popUsageKey s r k).usage r') k').Nodup := by
+  unfold popUsageKey
+  rw [setUsage_usage]
+  by_cases hr : r' = r
+  · subst hr
+    simp only [if_true, ulook_del]
+    split
+    · exact List.nodup_nil
+    · exact h
+  · simp only [hr, if_false]; exact h
+
+/-- close `UsageNodup (prim (prim ... s))` from `h : UsageNodup s` -/
+macro "usage_nodup" h:ident : tactic => `(tactic| (
+  intro r k
+  repeat (first
+    | apply nodup_ulook_addUsage
+    | apply nodup_ulook_addUsageO
+    | apply nodup_ulook_removeUsageT
+    | apply nodup_ulook_removeUsageO
+    | apply nodup_ulook_popUsageKey
+    | simp only [typedAdd_usage, typedDiscard_usage, typedAddAll_usage, typedDiscardAll_usage,
+        setNode_usage, setLink_usage, bumpUid_usage, dropControls_usage, setCurveTypeR_usage, setCurveTypeOR_usage]
+    | exact $h r k)))
+
+section
+attribute [local irreducible] addUsage addUsage? removeUsageT removeUsageO popUsageKey typedDiscardAll typedAddAll typedAdd
+  typedDiscard setLink setNode setCurveType setCurveType? bumpUid dropControls
+
+theorem addJunctionR_usageNodup (s : Reg) (n : Name) (p : Option Name) (h : UsageNodup s) : UsageNodup (addJunctionR s n p) := by
+  unfold addJunctionR; usage_nodup h
+theorem addTankR_usageNodup (s : Reg) (n : Name) (c : Option Name) (h : UsageNodup s) : UsageNodup (addTankR s n c) := by
+  unfold addTankR; usage_nodup h
+theorem addReservoirR_usageNodup (s : Reg) (n : Name) (p : Option Name) (h : UsageNodup s) : UsageNodup (addReservoirR s n p) := by
+  unfold addReservoirR; usage_nodup h
+theorem addPipeR_usageNodup (s : Reg) (n a b : Name) (h : UsageNodup s) : UsageNodup (addPipeR s n a b) := by
+  unfold addPipeR; usage_nodup h
+theorem addPumpR_usageNodup (s : Reg) (n a b : Name) (spec : PumpSpec) (pat : Option Name) (h : UsageNodup s) : UsageNodup (addPumpR s n a b spec pat) := by
+  unfold addPumpR; cases spec <;> simp only [] <;> usage_nodup h
+theorem addValveR_usageNodup (s : Reg) (n a b : Name) (kind : LinkKind) (curve : Option Name) (h : UsageNodup s) : UsageNodup (addValveR s n a b kind curve) := by
+  unfold addValveR; usage_nodup h
+theorem addPatternR_usageNodup (s : Reg) (n : Name) (h : UsageNodup s) : UsageNodup (addPatternR s n) := by
+  unfold addPatternR; usage_nodup h
+theorem addCurveR_usageNodup (s : Reg) (n : Name) (t : Option CurveType) (h : UsageNodup s) : UsageNodup (addCurveR s n t) := by
+  unfold addCurveR; cases t <;> simp only [] <;> usage_nodup h
+theorem addSourceR_usageNodup (s : Reg) (n node : Name) (pat : Option Name) (h : UsageNodup s) : UsageNodup (addSourceR s n node pat) := by
+  unfold addSourceR; usage_nodup h
+theorem delNodeR_usageNodup (s : Reg) (key : Name) (i : NodeInfo) (h : UsageNodup s) : UsageNodup (delNodeR s key i) := by
+  unfold delNodeR; usage_nodup h
+theorem delLinkR_usageNodup (s : Reg) (key : Name) (i : LinkInfo) (h : UsageNodup s) : UsageNodup (delLinkR s key i) := by
+  unfold delLinkR; usage_nodup h
+theorem removePatternR_usageNodup (s : Reg) (n : Name) (h : UsageNodup s) : UsageNodup (removePatternR s n) := by
+  unfold removePatternR; usage_nodup h
+theorem removeCurveR_usageNodup (s : Reg) (n : Name) (h : UsageNodup s) : UsageNodup (removeCurveR s n) := by
+  unfold removeCurveR; usage_nodup h
+theorem removeSourceR_usageNodup (s : Reg) (n : Name) (si : SourceInfo) (h : UsageNodup s) : UsageNodup (removeSourceR s n si) := by
+  unfold removeSourceR; usage_nodup h
+theorem setEndNodeR_usageNodup (s : Reg) (l n : Name) (isStart : Bool) (i : LinkInfo) (h : UsageNodup s) : UsageNodup (setEndNodeR s l n isStart i) := by
+  unfold setEndNodeR; usage_nodup h
+theorem setSpeedPatternR_usageNodup (s : Reg) (l : Name) (pat : Option Name) (i : LinkInfo) (h : UsageNodup s) : UsageNodup (setSpeedPatternR s l pat i) := by
+  unfold setSpeedPatternR; usage_nodup h
+theorem setPumpCurveR_usageNodup (s : Reg) (l c : Name) (i : LinkInfo) (h : UsageNodup s) : UsageNodup (setPumpCurveR s l c i) := by
+  unfold setPumpCurveR; usage_nodup h
+theorem setHeadlossCurveR_usageNodup (s : Reg) (l c : Name) (i : LinkInfo) (h : UsageNodup s) : UsageNodup (setHeadlossCurveR s l c i) := by
+  unfold setHeadlossCurveR; usage_nodup h
+theorem setHeadPatternR_usageNodup (s : Reg) (n : Name) (pat : Option Name) (i : NodeInfo) (h : UsageNodup s) : UsageNodup (setHeadPatternR s n pat i) := by
+  unfold setHeadPatternR; usage_nodup h
+theorem setVolCurveR_usageNodup (s : Reg) (n : Name) (curve : Option Name) (i : NodeInfo) (h : UsageNodup s) : UsageNodup (setVolCurveR s n curve i) := by
+  unfold setVolCurveR; usage_nodup h
+
+end
+
 end Wntr.Registry
